@@ -15,7 +15,7 @@ import (
 // prelude is emitted at the top of every query. Addresses are an algebraic
 // datatype so that injectivity and disjointness of sub-object addresses are
 // built into the solver instead of being axiomatised.
-const prelude = `(set-option :produce-models true)
+const preludeDecls = `(set-option :produce-models true)
 (set-logic ALL)
 (declare-datatypes ((Addr 0)) (((nil) (root (rid Int)) (fld (fpar Addr) (fid Int)) (elem (epar Addr) (eidx Int)))))
 (declare-datatypes ((Slice 0)) (((mk-slice (sarr Addr) (soff Int) (slen Int) (scap Int)))))
@@ -28,7 +28,9 @@ const prelude = `(set-option :produce-models true)
 (declare-fun s_empty () Str)
 (declare-fun rootOf (Addr) Int)
 (declare-fun idx (Slice Int) Addr)
-(assert (forall ((s Slice) (k Int)) (! (= (idx s k) (elem (sarr s) (+ (soff s) k))) :pattern ((idx s k)))))
+`
+
+const preludeAxioms = `(assert (forall ((s Slice) (k Int)) (! (= (idx s k) (elem (sarr s) (+ (soff s) k))) :pattern ((idx s k)))))
 (assert (forall ((s Slice) (j Int)) (! (= (elem (sarr s) j) (idx s (- j (soff s)))) :pattern ((elem (sarr s) j)))))
 (assert (= (rootOf nil) (- 1)))
 (assert (forall ((i Int)) (! (= (rootOf (root i)) i) :pattern ((root i)))))
@@ -47,6 +49,8 @@ const prelude = `(set-option :produce-models true)
 (assert (forall ((a Str) (b Str)) (! (or (= a b) (s_lt a b) (s_lt b a)) :pattern ((s_lt a b)))))
 (assert (forall ((a Str) (b Str) (c Str)) (! (=> (and (s_lt a b) (s_lt b c)) (s_lt a c)) :pattern ((s_lt a b) (s_lt b c)))))
 `
+
+const prelude = preludeDecls + preludeAxioms
 
 // Result of one obligation.
 type Result struct {
@@ -152,6 +156,25 @@ func dischargeAll(obs []*Obligation, workdir string, tlim int, par int, only str
 			defer func() { <-sem }()
 			q := ob.Query()
 			tl, on := tlim, only
+			// relevance slices first: smaller contexts prove most
+			// obligations quickly; the full query is the fallback
+			if !ob.ExpectSat && ob.raw == "" && !ob.ShortLimit {
+				done := false
+				for lvl := 1; lvl <= 2 && !done; lvl++ {
+					qs := ob.QueryLevel(lvl)
+					if len(qs) == len(q) {
+						continue
+					}
+					st, sv, out, ms := runPortfolio(qs, workdir, i*10+lvl, 6, only)
+					if st == "unsat" {
+						res[i] = Result{Ob: ob, Status: st, Solver: sv + fmt.Sprintf("/slice%d", lvl), Millis: ms, Output: out, SMTBytes: len(qs)}
+						done = true
+					}
+				}
+				if done {
+					return
+				}
+			}
 			if ob.ShortLimit {
 				tl = 3
 			}
